@@ -24,8 +24,8 @@ alignas(64) char _heap_start[ARENA + 64];
 extern char *__brkval;
 extern char *__malloc_heap_start;
 struct __freelist;
-extern struct __freelist *__flp;
-extern int __allocation_counter;
+extern struct __freelist *__flp __attribute__((weak));
+extern int __allocation_counter __attribute__((weak));
 
 namespace
 {
@@ -108,8 +108,8 @@ namespace
                     acts[mod(arg(o, 1), nt)].push_back({(int)mod(arg(o, 2), 3), arg(o, 3), arg(o, 4)});
             }
             __brkval = nullptr;
-            __flp = nullptr;
-            __allocation_counter = 0;
+            if (&__flp) __flp = nullptr;
+            if (&__allocation_counter) __allocation_counter = 0;
             std::map<char *, Blk> live;
             int tagc = 0;
             char *lo = _heap_start, *hi = _heap_start + ARENA;
@@ -215,8 +215,8 @@ namespace
                 if (!live.empty()) violate("C10/harness", "blocks left in the shadow map");
                 if (__brkval != nullptr && __brkval != __malloc_heap_start)
                     violate("C10/thr-heap-memory-lost", "after every client freed everything the break is %td bytes above the heap start", __brkval - __malloc_heap_start);
-                if (__flp != nullptr) violate("C10/thr-heap-memory-lost", "after every client freed everything the free list is not empty");
-                if (__allocation_counter != 0) violate("C10/thr-heap-allocation-counter", "allocation counter is %d at the end", __allocation_counter);
+                if (&__flp && __flp != nullptr) violate("C10/thr-heap-memory-lost", "after every client freed everything the free list is not empty");
+                if (&__allocation_counter && __allocation_counter != 0) violate("C10/thr-heap-allocation-counter", "allocation counter is %d at the end", __allocation_counter);
             }
             stat("sync_events", rr.steps);
             stat("context_switches", rr.switches);
